@@ -126,6 +126,7 @@ type histResult struct {
 // probe's observation must equal the probe on a fresh compile.
 func runHistory(s string, h []hop, probe hop, states map[string]bool) (res histResult) {
 	res.ok = true
+	settleGlobals()
 	fresh, err := xpath.Compile(s)
 	if err != nil {
 		res.ok, res.got = false, "compile: "+err.Error()
@@ -156,6 +157,30 @@ func runHistory(s string, h []hop, probe hop, states map[string]bool) (res histR
 	return
 }
 
+var settleExprs []*xpath.Expr
+
+// settleGlobals brings the package's process-global scratch state (the pooled
+// string builders) into its quiescent state before a history starts, so that
+// whatever a history observes is caused by that history alone: a few plain,
+// successful evaluations of every pooled function.
+func settleGlobals() {
+	if settleExprs == nil {
+		for _, s := range []string{"concat('', '')", "normalize-space('')", "string-join(/nosuch, '')"} {
+			if e, err := xpath.Compile(s); err == nil {
+				settleExprs = append(settleExprs, e)
+			}
+		}
+	}
+	for k := 0; k < 3; k++ {
+		for _, e := range settleExprs {
+			func() {
+				defer func() { recover() }()
+				e.Evaluate(doc.NewNav(emptyDoc, 0, nil))
+			}()
+		}
+	}
+}
+
 func histSig(s string, h []hop, probe hop) string {
 	var ops []string
 	for _, o := range h {
@@ -177,7 +202,10 @@ func c04Exprs(tier string) []string {
 	}
 	out = append(out,
 		"//a", "//a/b", ".//b", "descendant::a/descendant::b", "descendant::a//b", "//a//b", "//*/..", "a/b/..", "*/*", "*/@*", "//@x",
-		"a[b]", "a[1]", "*[2]", "*[last()]", "a/b[1]", "*/*[1]", "//b[1]", "//*[position() = last()]", "a[b][1]", "*[1][b]", "(//a)[2]", "(//b)[last()]", "(a | b)[1]", "(//a)[b][1]", "(//*)[@x][last()]", "(//*)[1][b]", "count((//*)[@x][2])", "//*[(*)[@x][1]]",
+		"a[b]", "a[1]", "*[2]", "*[last()]", "a/b[1]", "*/*[1]", "//b[1]", "//*[position() = last()]", "a[b][1]", "*[1][b]", "(//a)[2]", "(//b)[last()]", "(a | b)[1]",
+		// evaluations that abort half-way on SOME context nodes (a deliberate type error after part of the result was built)
+		"concat(name(), '-', string(sum(string(@x))))", "concat('L', substring('abc', string(@x)))", "normalize-space(concat(., string(sum(string(.)))))", "string-join(*, string(sum(string(@a))))",
+		"(//a)[b][1]", "(//*)[@x][last()]", "(//*)[1][b]", "count((//*)[@x][2])", "//*[(*)[@x][1]]",
 		"a | b", "//a | //b", "a | . | ..", "*/(a, b)", "*/(a, b)/..", "a and b", "a or b", "//a and //nosuch", "a = b", "//a = //b", "a > 1", "//@x > 1", "//b = '1'", "1 = //@x",
 		"a != b", "* = *", "count(*) + count(//a)", "sum(//@x) * 2", "//@x + 1", "-a", "a + b", "a mod 2",
 		"count(//a)", "sum(//@x)", "string(//b)", "name(*)", "local-name(//a)", "concat(a, b)", "concat(//b, '-', //@x)", "string-join(//b, ',')", "string-join(//@x, //b)",
